@@ -15,8 +15,10 @@ import sys
 import time
 
 VERIF = os.path.dirname(os.path.dirname(os.path.abspath(__file__)))
-HARNESS = os.path.join(VERIF, "harness")
-TARGET = os.path.join(VERIF, "target")
+# overridable so that the same checks can be pointed at a scratch copy of the repository
+# (seeded-mutation trials, fix trials): the scratch harness copy has its path deps rewritten
+HARNESS = os.environ.get("VERIF_HARNESS", os.path.join(VERIF, "harness"))
+TARGET = os.environ.get("VERIF_TARGET", os.path.join(VERIF, "target"))
 REPO = os.environ.get("VERIF_REPO", "/repo")
 NCPU = int(os.environ.get("VERIF_JOBS", str(os.cpu_count() or 4)))
 # terms nested a few thousand levels deep are part of the workloads (json is recursive)
@@ -287,7 +289,12 @@ class Check:
         self.inconclusive[reason] = self.inconclusive.get(reason, 0) + 1
 
     def violation(self, key, witness):
-        """`key` is an exact signature of what failed (used to match known findings)."""
+        """`key` is an exact signature of what failed (used to match known findings).
+        Source line numbers inside a key (panic locations) are dropped: they move with every
+        unrelated edit of the file, the file name stays."""
+        import re
+
+        key = re.sub(r"(\.rs):\d+(:\d+)?", r"\1", key)
         self.evaluations += 1
         if key in self.known:
             self.known_hits[key] = self.known_hits.get(key, 0) + 1
